@@ -10,11 +10,12 @@ package rest
 
 import (
 	"context"
-	"errors"
 	"encoding/json"
+	"errors"
 	"fmt"
 	"sort"
 	"strings"
+	"sync"
 	"time"
 
 	"github.com/couchbase/sync_gateway/db"
@@ -107,7 +108,8 @@ func c06Generate(seed uint64, tier string, index int) json.RawMessage {
 	p.Faulty = index%2 == 1
 	if p.Faulty {
 		p.Cfg.MaxFaults = r.Range(1, 3)
-		p.Cfg.FaultPermille = map[string]int{simnet.AltSever: 4, simstore.AltCasMiss: 30}
+		p.Cfg.FaultPermille = map[string]int{simnet.AltSever: 4, simstore.AltCasMiss: 30, simstore.AltErr: 6, simstore.AltStall: 6}
+		p.Cfg.MaxFaults = r.Range(1, 4)
 	}
 	return mustJSON(p)
 }
@@ -182,6 +184,20 @@ func c06Run(env *verifsim.Env, raw json.RawMessage) *verifsim.Violation {
 		panic(err)
 	}
 	nodes := []*restNode{active, passive}
+	// document writes that failed on an injected storage error, per side
+	var errMu sync.Mutex
+	errDocs := [2]map[string]bool{{}, {}}
+	watch := func(side int, n *restNode) {
+		n.node.Observe = func(oi simstore.OpInfo) {
+			if oi.Alt == simstore.AltErr && oi.Write && oi.Class == "doc" {
+				errMu.Lock()
+				errDocs[side][oi.Key] = true
+				errMu.Unlock()
+			}
+		}
+	}
+	watch(0, active)
+	watch(1, passive)
 	docID := func(i int) string { return fmt.Sprintf("doc%d", i) }
 	var setupErr, replCfg string
 	if cerr := s.Call("setup", func() {
@@ -314,6 +330,7 @@ func c06Run(env *verifsim.Env, raw json.RawMessage) *verifsim.Violation {
 					panic(err)
 				}
 				nodes[1] = nn
+				watch(1, nn)
 			case "restart-active":
 				if err := nodes[0].stop(); err != nil {
 					return c06Budget(err, w, p, "running the harness step")
@@ -323,12 +340,25 @@ func c06Run(env *verifsim.Env, raw json.RawMessage) *verifsim.Violation {
 					panic(err)
 				}
 				nodes[0] = nn
+				watch(0, nn)
 				// the community edition keeps replication definitions in memory (they come from the database
 				// configuration): the restarted node is given the same definition again; its checkpoints are in the bucket
 				if cerr := s.Call("recreate-replication", func() { nn.adminReq("PUT", "/adb/_replication/r1", replCfg) }); cerr != nil {
 					return c06Budget(cerr, w, p, "running the harness step")
 				}
 			}
+		}
+	}
+	s.SetFaultsEnabled(false)
+	if p.Faulty {
+		// A revision whose transfer failed on a storage error is not asked for again by the running replication; it is
+		// picked up when the replication next starts from its checkpoint.  Runs with storage faults therefore restart
+		// the replication once (an operator's stop / start) before convergence is judged.
+		if cerr := s.Call("operator-stop", func() { nodes[0].adminReq("PUT", "/adb/_replicationStatus/r1?action=stop", "") }); cerr != nil {
+			return c06Budget(cerr, w, p, "stopping the replication")
+		}
+		if err := s.Settle(6*time.Second, 200*time.Millisecond); err != nil {
+			return c06Budget(err, w, p, "waiting for the replication to stop")
 		}
 	}
 	// make sure the replication is running, then give it bounded time to catch up
@@ -411,6 +441,22 @@ func c06Run(env *verifsim.Env, raw json.RawMessage) *verifsim.Violation {
 	}
 	if w.net.Dialled > 1000 {
 		vio.Key = "reconnect-storm"
+	}
+	if vio.Key == "" && p.Direction != "pull" {
+		// recorded finding: the pushing side marks a revision as processed whatever the peer answered, so a revision the
+		// peer failed to store for a transient storage error is behind the push checkpoint and is never sent again
+		explained := len(diffs) > 0
+		errMu.Lock()
+		for i := 0; i < c06Docs; i++ {
+			a, b := states[0][docID(i)], states[1][docID(i)]
+			if c06Differ(a, b) && !errDocs[1][docID(i)] {
+				explained = false
+			}
+		}
+		errMu.Unlock()
+		if explained {
+			vio.Key = "failed-push-counted-as-processed"
+		}
 	}
 	return vio
 }
